@@ -70,7 +70,11 @@ type c19Search struct {
 	depth     int
 	name      string
 	mode      string // state caches: "none", "per-block" (a new cache for every block writer), "shared" (one for all)
-	counter   *int
+
+	writercache int // per-block mode: cache size of the block writers (0: cachesize)
+	seqstates   bool
+	permbatch   int // LeveldbPermanent.batchlimit (0: default 333)
+	counter     *int
 }
 
 // execute replays hist on a fresh database; the last event and the reads after
@@ -78,6 +82,11 @@ type c19Search struct {
 func (s *c19Search) execute(hist []string) (vios []c19Vio, hidden string, outcome string) {
 	db := s.env.newDB(s.cachesize)
 	defer db.close()
+
+	if s.writercache > 0 || s.seqstates || s.permbatch > 0 {
+		db.writercache, db.seqstates, db.permbatch = s.writercache, s.seqstates, s.permbatch
+		db.reopen() // NOTE nothing was written yet; the permanent batch limit is set when opening
+	}
 
 	if s.mode == "shared" {
 		db.shared = util.NewLFUGCache[string, [2]interface{}](s.cachesize)
@@ -279,23 +288,35 @@ func TestVerifC19(t *testing.T) {
 	shareddepth := vlib.Pick(r, 4, 5)
 
 	r.Rule("BFS over event histories (alphabet: write+commit the next block of kind S/F/P/O - genesis G first -, abandoned block write U, mergePermanent m, MergeAllPermanent M, RemoveBlocks(h) for every h from one below the lowest temp to one above the last block, cleanRemoved(0) c) " +
-		"to the stated depth with at most the stated number of committed blocks, once without and once with state caches (permanent + block write, size 16); a state is the committed chain (block ids) + how many blocks are in the permanent database + temps waiting for cleanup + prefix storages of the block-write area + predicted permanent state cache + per-height write counters; " +
+		"to the stated depth with at most the stated number of committed blocks, once without state caches and a permanent batch limit of 2, once with a permanent state cache (16) and block writers whose cache (1) is smaller than their blocks and a batch limit of 3 (thorough: also both with the default limit 333 and writer caches of 16); a state is the committed chain (block ids) + how many blocks are in the permanent database + temps waiting for cleanup + prefix storages of the block-write area + predicted permanent state cache + per-height write counters; " +
 		"after every transition all reads over the full query domain (heights 0..bound+1, suffrage heights 0..bound+1, 5 state keys, every operation/fact hash of every block ever written in the history + an unknown one) are compared with the slice-of-committed-blocks model; " +
 		"non-trivial = a state with at least one temp and at least one block in the permanent database")
 	r.Assume("block map is base.DummyBlockMap over a real isaac.Manifest and the suffrage proof is the harness type vfProof (isaac/block cannot be imported from inside isaac/database); goleveldb and the JSON encoder are trusted")
 	r.Assume("earlier steps of a replayed history only repeat the State(key) reads (the only reads that change the real objects: permanent state cache)")
 	r.Set("depth", depth)
 	r.Set("max_blocks", maxblocks)
-	r.Set("cache_modes", []string{"none", "per-block(16)", "shared(16)"})
+	r.Set("cache_modes", []string{"none/batchlimit 2", "per-block(permanent 16, writers 1)/batchlimit 3", "shared(16)", "thorough: + none and per-block(16) with the default batch limit 333"})
 	r.Set("depth_shared_cache", shareddepth)
 
 	counter := 0
 
-	for _, c := range []struct {
-		mode      string
-		cachesize int
-	}{{"none", 0}, {"per-block", 16}} {
-		s := &c19Search{r: r, env: env, cachesize: c.cachesize, maxblocks: maxblocks, depth: depth, name: "cache-" + c.mode, mode: c.mode, counter: &counter}
+	searches := []*c19Search{
+		// every block of the alphabet is merged into the permanent database in several batches
+		{name: "cache-none-batch2", mode: "none", permbatch: 2},
+		// block writers with a state cache smaller than their blocks (states set one by one: the last one survives),
+		// permanent cache large enough for every key
+		{name: "cache-per-block-tiny-writer-cache-batch3", mode: "per-block", cachesize: 16, writercache: 1, seqstates: true, permbatch: 3},
+	}
+
+	if r.Thorough() {
+		searches = append(searches,
+			&c19Search{name: "cache-none", mode: "none"},
+			&c19Search{name: "cache-per-block", mode: "per-block", cachesize: 16},
+		)
+	}
+
+	for _, s := range searches {
+		s.r, s.env, s.maxblocks, s.depth, s.counter = r, env, maxblocks, depth, &counter
 		s.run()
 	}
 
